@@ -1,0 +1,65 @@
+//! # Verification hooks (cargo feature `verif`)
+//!
+//! Pass-through wrappers that make the private write-cache of module `transactions`
+//! reachable from an external conformance harness. Nothing here changes behaviour:
+//! every function forwards to the wrapped item. Compiled only with `--features verif`.
+
+use crate::error::AnyResult;
+use crate::transactions;
+use cosmwasm_std::{Order, Record, Storage};
+
+/// Pass-through wrapper around the private write-cache `transactions::StorageTransaction`.
+pub struct StorageTransaction<'a>(transactions::StorageTransaction<'a>);
+
+impl<'a> StorageTransaction<'a> {
+    /// Creates a new write-cache over the provided base storage.
+    pub fn new(storage: &'a dyn Storage) -> Self {
+        Self(transactions::StorageTransaction::new(storage))
+    }
+
+    /// Consumes the write-cache and returns the log of changes to be committed.
+    pub fn prepare(self) -> RepLog {
+        RepLog(self.0.prepare())
+    }
+}
+
+impl Storage for StorageTransaction<'_> {
+    fn get(&self, key: &[u8]) -> Option<Vec<u8>> {
+        self.0.get(key)
+    }
+
+    fn range<'b>(
+        &'b self,
+        start: Option<&[u8]>,
+        end: Option<&[u8]>,
+        order: Order,
+    ) -> Box<dyn Iterator<Item = Record> + 'b> {
+        self.0.range(start, end, order)
+    }
+
+    fn set(&mut self, key: &[u8], value: &[u8]) {
+        self.0.set(key, value)
+    }
+
+    fn remove(&mut self, key: &[u8]) {
+        self.0.remove(key)
+    }
+}
+
+/// Pass-through wrapper around the private replication log `transactions::RepLog`.
+pub struct RepLog(transactions::RepLog);
+
+impl RepLog {
+    /// Applies the logged changes to the provided storage.
+    pub fn commit(self, storage: &mut dyn Storage) {
+        self.0.commit(storage)
+    }
+}
+
+/// Pass-through to the private `transactions::transactional` helper.
+pub fn transactional<F, T>(base: &mut dyn Storage, action: F) -> AnyResult<T>
+where
+    F: FnOnce(&mut dyn Storage, &dyn Storage) -> AnyResult<T>,
+{
+    transactions::transactional(base, action)
+}
